@@ -26,7 +26,8 @@ FAMILIES = {
 }
 # property -> families whose judges print verdicts for it
 PROPS = {
-    "C03": ["tree", "clone"], "C04": ["tree", "clone"],   # (merge, links, reader judges also print C03/C04 verdicts; those families are run by their own properties) "C05": ["values"], "C06": ["tree", "values", "card", "merge"],
+    # (the merge, links and reader judges also print C03/C04 verdicts; those families are run by their own properties)
+    "C03": ["tree", "clone"], "C04": ["tree", "clone"], "C05": ["values"], "C06": ["tree", "values", "card", "merge"],
     "C09": ["card"],
     "C14": ["paths"],
     "C11": ["clone", "values"],
